@@ -65,7 +65,7 @@ def run(ctx):
         edit_sets += [frozenset(c) for c in itertools.combinations(keys, 3)]
     else:
         edit_sets += [frozenset({"user", "password", "host"}), frozenset({"user", "password", "port"}), frozenset({"host", "port", "scheme"})]
-    K = dict(Schemes=frozenset({"http", "https", "ws", "wss"} if thorough else {"http", "wss"}), Hosts=frozenset(HOSTS if thorough else ["named", "ipv6"]),
+    K = dict(Schemes=frozenset({"http", "https", "ws", "wss"} if thorough else {"http", "wss"}), BuildSchemes=frozenset({"http", "https", "ws", "wss"}), Hosts=frozenset(HOSTS if thorough else ["named", "ipv6"]),
              Ports=frozenset({"80", "443", "8080"}), Users=frozenset({"u1", "u2"} if not thorough else USERS), Passwords=frozenset({"pw1", "pw4"} if not thorough else PWS),
              Paths=frozenset(PATHS if thorough else ["p_empty", "p_ae"]), Queries=frozenset({NONE, "q3"} if not thorough else QUERIES),
              Fragments=frozenset(FRAGS if thorough else [NONE]), HostHeaders=frozenset(HOSTHDR), Roots=frozenset(ROOTS),
